@@ -55,7 +55,13 @@ func refHeader(id []byte) []byte { return refFrame(refBody(id)) }
 // validID: the property's "valid protocol ID" = non-empty, valid UTF-8.
 func validID(id []byte) bool { return len(id) > 0 && utf8.Valid(id) }
 
-var runePool = []rune{'a', 'z', '/', '.', '-', '0', 'A', ' ', '\n', 0, 0x7f, 0xe9, 0x3a9, 0x20ac, 0x65e5, 0x1f600, 0x10ffff}
+// the pool includes every boundary code point of the UTF-8 encoding lengths and the
+// code points validators like to confuse with errors: U+FFFD (the replacement
+// character, a VALID rune equal to utf8.RuneError), the BOM, non-characters.
+var runePool = []rune{'a', 'z', '/', '.', '-', '0', 'A', ' ', '\n', 0, 0x7f, 0x80, 0xe9, 0x3a9, 0x7ff, 0x800, 0x20ac, 0x65e5, 0xd7ff, 0xe000, 0xfeff, 0xfffd, 0xfffe, 0xffff, 0x10000, 0x1f600, 0x10ffff}
+
+// specialIDs are valid protocol ids made of such code points only.
+var specialIDs = []string{"\ufffd", "app/\ufffd/1", "\ufffd\ufffd\ufffd", "\ufeffbom", "\x00", "a\x00b", "\u0080", "\u07ff\u0800", "\ud7ff\ue000", "\ufffe\uffff", "\U00010000\U0010ffff", " ", "\n", "\x7f"}
 
 // genID builds a valid UTF-8 string of exactly n bytes starting with tag (as
 // far as it fits).
@@ -185,6 +191,12 @@ func runCodec(r *vf.Run, limit int) {
 		// the terminal error (EOF) arrives together with the last bytes of the stream
 		add(&codecCase{class: "valid", id: genID(rng, n, ""), payload: nil, chunk: "all", errWithData: true, useReal: true})
 		add(&codecCase{class: "valid", id: genID(rng, n, ""), payload: randBytes(rng, 5), chunk: "all", errWithData: true})
+	}
+	// ids made of boundary / easily-confused code points
+	for _, sid := range specialIDs {
+		for _, k := range []string{"one", "all", "rand"} {
+			add(&codecCase{class: "valid", id: []byte(sid), payload: randBytes(rng, 9), chunk: k, useReal: k != "one"})
+		}
 	}
 	nValid := r.N(2400, 200000)
 	for len(cases) < nValid {
